@@ -567,6 +567,10 @@ def gen_table(ctx, rng, J=None, K=None, regime=None):
                 Yt[j][k] = rng.choice([1e-6, 1e6, 1.0]) * rng.uniform(1, 2)
     if all(v == 0.0 for r in Yt for v in r):
         Yt[0][0] = 1.0
+    if K >= 2 and rng.random() < 0.15:
+        # a source switched off by a weight of exactly zero (on the real SourceModel objects)
+        W[rng.randrange(K)] = 0.0
+        ctx.count('zero-source-weight')
     groups, Y = [], [[] for _ in range(J)]
     k = 0
     for n in sizes:
@@ -1217,6 +1221,114 @@ def probes(ctx, case, case2, opa):
             viol('history-probes', 'raises-' + exc_name(ex), f'a probe sequence raises: {ex}')
 
 
+# ----------------------------------------------------------------------------- signal generator (consumer)
+
+P_SG = 'MultiDatasetSignalGenerator.generate_signal_events'
+_SG = None
+
+
+def sg_classes():
+    global _SG
+    if _SG is None:
+        S = sk()
+        from skyllh.core.dataset import Dataset, DatasetData
+        from skyllh.core.random import RandomStateService
+        from skyllh.core.signal_generator import MultiDatasetSignalGenerator, SignalGenerator
+
+        class ConstYield(S.DetSigYield):
+            def __init__(self, yields):
+                self._y = np.asarray(yields, dtype=np.float64)
+                self.param_names = ()
+
+            def sources_to_recarray(self, sources):
+                return np.zeros((len(sources),), dtype=[('dec', np.double)])
+
+            def __call__(self, src_recarray, src_params_recarray):
+                return (self._y.copy(), {})
+
+        class CountingGenerator(SignalGenerator):
+            def __init__(self, *a, **kw):
+                super().__init__(*a, **kw)
+                self.requested = None
+
+            def generate_signal_events(self, rss, mean, poisson=True, src_detsigyield_weights_service=None):
+                self.requested = int(mean)
+                return (int(mean), {})
+
+        class NS:
+            pass
+        n = NS()
+        n.__dict__.update(locals())
+        _SG = n
+    return _SG
+
+
+def signal_generator_probe(ctx, case):
+    """The REAL MultiDatasetSignalGenerator.generate_signal_events (anchored consumer of the fractions) runs
+    on the shared weight services between calculate() and get_weights(): afterwards — without another
+    calculate — the services must still hold a_jk = W_k Y_jk and the partition of unity f_j; the event
+    numbers are non-negative and add up to the request."""
+    if not in_guard(case) or case['J'] < 2:
+        return
+    S, G = sk(), sg_classes()
+    fl = flatten(case)
+    if fl is None:
+        return
+    (W, Y) = fl
+    J = case['J']
+    ex = table_exact(case)
+    fe = [float(x) for x in f_exact(ex)]
+    srcs = [S.PointLikeSource(name=f'G{k}', ra=0., dec=0.1, weight=float(w)) for k, w in enumerate(W)]
+    shg_mgr = S.SourceHypoGroupManager(S.SourceHypoGroup(
+        sources=srcs, fluxmodel=S.SteadyPointlikeFFM(Phi0=1, energy_profile=None, cfg=S.cfg),
+        detsigyield_builders=S.NoBuilder(cfg=S.cfg), sig_gen_method=None))
+    arr = np.empty((J, 1), dtype=object)
+    for j in range(J):
+        arr[j, 0] = G.ConstYield(Y[j])
+    svc = S.Mock(spec_set=['__class__', 'arr', 'shg_mgr', 'n_datasets', 'n_shgs'])
+    svc.__class__ = S.DetSigYieldService
+    svc.arr, svc.shg_mgr, svc.n_datasets, svc.n_shgs = arr, shg_mgr, J, 1
+    ws = S.SrcDetSigYieldWeightsService(detsigyield_service=svc)
+    fs = S.DatasetSignalWeightFactorsService(src_detsigyield_weights_service=ws)
+
+    def mock_of(cls):
+        m = S.Mock(spec_set=['__class__'])
+        m.__class__ = cls
+        return m
+    gens = [G.CountingGenerator(cfg=S.cfg, shg_mgr=shg_mgr) for _ in range(J)]
+    sg = G.MultiDatasetSignalGenerator(
+        cfg=S.cfg, shg_mgr=shg_mgr, dataset_list=[mock_of(G.Dataset) for _ in range(J)],
+        data_list=[mock_of(G.DatasetData) for _ in range(J)], sig_generator_list=gens,
+        ds_sig_weight_factors_service=fs)
+    rss = G.RandomStateService(seed=1)
+    ctx.count('signal-generator-probes')
+    rep = dict(case, sgprobe=True)
+    with np.errstate(all='ignore'), warnings.catch_warnings():
+        warnings.simplefilter('ignore')
+        for mean in (1, 2, 3, 5, 7, 11, 4):
+            try:
+                (n_gen, _) = sg.generate_signal_events(rss=rss, mean=mean, poisson=False)
+            except (ValueError, IndexError, TypeError) as ex_:
+                ctx.violation(P_SG, 'raises-' + exc_name(ex_), f'mean = {mean}: {ex_}', case=rep)
+                return
+            n_j = [g.requested for g in gens]
+            if any(n is None or n < 0 for n in n_j) or sum(n_j) != mean or n_gen != mean:
+                ctx.violation(P_SG, 'event-numbers-wrong', f'mean = {mean}: per-dataset numbers {n_j}', case=rep, impl=n_j,
+                              predicate='n_j >= 0 and sum_j n_j = requested number')
+            a = ws.get_weights()[0]
+            f = [float(x) for x in fs.get_weights()[0]]      # NOT recalculated
+            bad_a = any(not close(float(a[j][k]), float(ex[j][k]), 2 * EPS * abs(float(ex[j][k])) + 5e-324)
+                        for j in range(J) for k in range(len(W)))
+            bad_f = (any(not (x >= 0.0) for x in f) or not abs(math.fsum(f) - 1.0) <= 8 * EPS
+                     or any(not close(x, y, 64 * EPS * y + 5e-324) for x, y in zip(f, fe)))
+            if bad_a or bad_f:
+                ctx.violation(P_SG, 'corrupts-service-weights',
+                              f'after generating {mean} events (n_j = {n_j}) the services hold f_j = {f}, expected {fe}',
+                              case=dict(rep, mean=mean), impl=f, model=fe,
+                              predicate='generate_signal_events leaves a_jk = W_k Y_jk and the partition of unity f_j in the services')
+                return
+
+
 # ----------------------------------------------------------------------------- correspondence
 
 def queue_model(case, impl, opa, lines, checks):
@@ -1302,7 +1414,13 @@ def corpus_cases():
     m3 = dict(t2, ns=1.5, ds=[{'didx': 0, 'N': 7, 'nsel': 0, 'vals': []},
                               {'didx': 1, 'N': 9, 'nsel': 2, 'vals': [[0, 0, 2.0], [2, 1, 0.5], [3, 0, 1.0], [4, 1, 3.0]]},
                               {'didx': 2, 'N': 5, 'nsel': 1, 'vals': [[1, 0, 1.0]]}])
-    return [t1, t2, m1, m2, big, bigm, tiny, m3]
+    # a source with weight exactly 0 (int and float), services and likelihood
+    z1 = {'J': 2, 'groups': [[1.0, 0.0, 3.0]], 'Y': [[[10.0, 20.0, 30.0]], [[20.0, 40.0, 60.0]]]}
+    z2 = dict({'J': 2, 'groups': [[0.0, 2.0], [3.0]], 'Y': [[[1.0, 2.0], [4.0]], [[0.5, 1.0], [2.0]]]},
+              ns=2.0, ds=[{'didx': 0, 'N': 10, 'nsel': 3, 'vals': vals}, {'didx': 1, 'N': 12, 'nsel': 3, 'vals': vals}])
+    # f = (0.3, 0.3, 0.3, 0.1): 2 requested signal events round to 1+1+1+0 (surplus branch of the generator)
+    sg = {'J': 4, 'groups': [[1.0, 2.0]], 'Y': [[[1.0, 1.0]], [[2.0, 0.5]], [[0.0, 1.5]], [[0.5, 0.25]]]}
+    return [t1, t2, m1, m2, big, bigm, tiny, m3, z1, z2, sg]
 
 
 # ----------------------------------------------------------------------------- run / replay
@@ -1331,6 +1449,7 @@ def process(ctx, cases, opa, meta_budget, rng, exe):
         if ns_ or nd_:
             metamorphic(ctx, c, impl, opa, ns_, nd_, rng)
         if not c.get('malformed'):
+            signal_generator_probe(ctx, {k: v for k, v in c.items() if k not in ('sgprobe', 'mean')})
             long_lived(ctx, c, opa, rng, lines, checks)
             if in_guard(c):
                 probes(ctx, c, probe_partner(c, rng), opa)
